@@ -73,6 +73,9 @@ theorem stable_isUnsafe (q : CompKind → Bool) (hq : ∀ k g, q k = true → q 
   rs := fun w l h => by
     simp only [isUnsafeF, Bool.not_eq_true'] at h ⊢
     exact eSafe_mergeSafe_false l h
+  promo := fun w l h => by
+    simp only [isUnsafeF, Bool.not_eq_true'] at h ⊢
+    rw [eSafe_promotedFlags, h]; rfl
   fn := hq
 
 theorem stable_isUnsafe_any : Stable isUnsafeF anyKind := stable_isUnsafe anyKind (fun _ _ _ => rfl)
@@ -94,6 +97,11 @@ theorem stable_srcMark (L : Option String → Bool) : Stable (srcMarkF L) anyKin
     rcases h with h | h
     · exact .inl (by simpa [replaceSelfFlags, mergeSafe] using h)
     · exact .inr (eSafe_mergeSafe_false l h)
+  promo := fun w l h => by
+    simp only [srcMarkF, Bool.or_eq_true, Bool.not_eq_true'] at h ⊢
+    rcases h with h | h
+    · exact .inl (by unfold promotedFlags; split <;> simpa using h)
+    · exact .inr (by rw [eSafe_promotedFlags, h]; rfl)
   fn := fun _ _ _ => rfl
 
 theorem fresh_srcMark {L : Option String → Bool} (h : L none = false) : FreshOK (srcMarkF L) anyKind where
@@ -105,6 +113,7 @@ theorem stable_notStream : Stable anyFlags notStream where
   prio := fun _ _ _ => rfl
   ro := fun _ _ _ => rfl
   rs := fun _ _ _ => rfl
+  promo := fun _ _ _ => rfl
   fn := notStream_setFunc
 
 theorem fresh_notStream : FreshOK anyFlags notStream where
@@ -120,6 +129,9 @@ theorem stable_dUnsafe : Stable dUnsafeF anyKind where
   rs := fun w l h => by
     simp only [dUnsafeF, Bool.not_eq_true'] at h
     simp [dUnsafeF, replaceSelfFlags, mergeSafe, h]
+  promo := fun w l h => by
+    simp only [dUnsafeF, Bool.not_eq_true'] at h ⊢
+    rw [promotedFlags_dSafe]; exact h
   fn := fun _ _ _ => rfl
 
 /-! ### the loader -/
